@@ -129,6 +129,11 @@ def check(ctx):
     sq = [n for n in ast.walk(vc) if isinstance(n, (ast.Assign, ast.AugAssign)) and "df[cols]" in unparse(n.targets[0] if isinstance(n, ast.Assign) else n.target)]
     ok = len(cp) == 1 and (not sq or all(dominates(vc, cp[0][0], s_) for s_ in sq))
     ctx.ob("EFFECT.no-input-mutation", vc, "_var_chunk copies the partition before modifying columns", ok, "" if ok else "the shared partition object is squared in place: anything else computed from the same partition in one graph sees squared values")
+    # ---------------- agg spec normalisation: flat result columns only when NO column asks for several functions
+    nsp = ctx.model.module("dask/dataframe/groupby.py").func("_normalize_spec")
+    uf = find("use_flat_columns = M_v", nsp)
+    ok = len(uf) == 1 and eqv(uf[0][1]["M_v"], "not any((isinstance(subspec, compounds) for subspec in spec.values()))")
+    ctx.ob("ALG.agg-spec.flat-columns", nsp, "use_flat_columns = not any(value is a list/tuple/dict)", ok, "" if ok else "a dict spec mixing scalars and lists gets flat columns: the later function of a column overwrites the earlier one (pandas returns MultiIndex columns)")
 
 
 VARIANTS = [
